@@ -5,6 +5,7 @@
 -/
 import DateutilVerif.Proofs.RRuleBridge
 import DateutilVerif.Proofs.RRuleRange
+import DateutilVerif.Proofs.RRuleSetpos
 
 namespace RRule
 open Cal
@@ -108,7 +109,10 @@ theorem daily_results (da : DailyArgs a) (h : construct a = .ok r) (k : Nat) (st
   have hs := daily_simple da.toDWArgs h
   obtain ⟨bh, bm, bs, hr⟩ := daily_rule da.toDWArgs h
   have hfreq : r.freq = 3 := by rw [hr]; exact da.freq
-  have hsp : r.bysetpos = none := by rw [hr]
+  have hsp := construct_bysetpos a r h
+  have htsok : TsOk st.timeset := by
+    have := construct_timeset_ok a r h (by rw [da.freq]; omega)
+    rw [hr] at this; rw [hg.timeset]; exact this
   have hpos := startOrd_pos da
   have hk : (0 : Int) ≤ k * a.interval := Int.mul_nonneg (by omega) (by have := da.interval; omega)
   have hidx := index_range _ _ _ hg.valid
@@ -121,7 +125,8 @@ theorem daily_results (da : DailyArgs a) (h : construct a = .ok r) (k : Nat) (st
   have hi1 : curOrd st.cur - st.info.yearordinal + 1 ≤ st.info.yearlen + 7 := by
     unfold curOrd; rw [hyo, hyl]; omega
   have hord := hg.ord
-  obtain ⟨fl, hres⟩ := periodResults_range hs st hg.facts hg.nwd hsp _ _ hd hi0 hi1 (by omega) (by omega)
+  obtain ⟨fl, hres⟩ := periodResults_range_sp hs st hg.facts hg.nwd (by rw [hsp.1]; exact hsp.2) htsok _ _ hd hi0 hi1
+    (by omega) (by omega)
   have e1 : st.info.yearordinal + (curOrd st.cur - st.info.yearordinal) =
       Spec.RRule.startOrd a + k * a.interval := by omega
   have e2 : st.info.yearordinal + (curOrd st.cur - st.info.yearordinal + 1) =
@@ -134,10 +139,10 @@ theorem daily_results (da : DailyArgs a) (h : construct a = .ok r) (k : Nat) (st
     intro o ho
     exact simpleOk_eq_dateOk da.toDWArgs h o (by have := (mem_intRange _ _ _).mp ho; omega)
   refine ⟨⟨fl, ?_⟩, ?_⟩
-  · rw [hres, hg.timeset, sel_span a da.bysetpos k _ _ (daily_span da k), hbridge]
+  · rw [hres, hg.timeset, sel_span_sp a k _ _ (daily_span da k), hbridge, hsp.1]
   · intro x hx
-    rw [sel_span a da.bysetpos k _ _ (daily_span da k)] at hx
-    have := sel_bounds _ _ _ _ x hx
+    rw [sel_span_sp a k _ _ (daily_span da k)] at hx
+    have := sel_bounds _ _ _ _ x (applySetpos_subset _ _ x hx)
     omega
 
 /-- `advance` reaches period `k+1` -/
@@ -196,7 +201,7 @@ theorem daily_init (da : DailyArgs a) (h : construct a = .ok r) :
 
 /-- **`iter_eq_spec`, DAILY portion.**  For every argument set with FREQ=DAILY, INTERVAL ≥ 1, a valid
     start, any BYMONTH / BYMONTHDAY (non-zero members) / BYYEARDAY / BYDAY / BYHOUR / BYMINUTE / BYSECOND,
-    any COUNT / UNTIL, and no BYWEEKNO / BYEASTER / BYSETPOS: the values yielded during the first
+    BYSETPOS, any COUNT / UNTIL, and no BYWEEKNO / BYEASTER: the values yielded during the first
     `n` periods are exactly the specification's recurrence set of those periods — for every `n`
     whose periods lie inside datetime's range. -/
 theorem iter_eq_spec_daily (da : DailyArgs a) (h : construct a = .ok r) (n : Nat)
